@@ -9,18 +9,25 @@
    Oracles (supplied by the harness from the libraries the code calls, see
    DESIGN section 2): the permutation drawn by np.random.permutation after
    seed(0xA5EED) for each table length, the half-window `wing` computed by
-   smoothing._width2wing, np.sqrt on the bin sizes, and the squared biweight
-   midvariance of the residuals (descriptives.biweight_midvariance(..)**2).
+   smoothing._width2wing (the entry derives it from the float-sensitive ceil through
+   Model/Smoothing.width2wing and refuses a value breaking its contract) and np.sqrt on
+   the bin sizes.  The rolling median is Model/Smoothing.rolling_median_wing.  The variance
+   descriptives.biweight_midvariance(residuals) ** 2 is the parameter [bmv2] of [do_fix_gen]
+   (contract: not negative): the exact rational biweight iteration squares the size of its
+   numbers at every step (measured: a 3-value input does not finish in a minute), so the
+   harness computes it with the code's own function on the residuals the model hands out;
+   [var_of] is the exact definition for small inputs (entry c04_var) and the closed instance
+   [do_fix].
 
-   Alignment: after match_ref the sample row and its reference row travel
-   together as a pair.  The code keeps two tables aligned by position; they
-   stay aligned exactly when the sample table is in genomic order with distinct
-   sort keys (what tabio.read delivers) -- see the finding
-   'fix-sample-row-order-positional' for what happens otherwise.  [fix_presorts]
-   (generated) says whether load_adjust_coverages sorts the sample itself.
+   Alignment: load_adjust_coverages first brings the sample into genomic order ([presort];
+   /repo 9f02d63 -- the generated flag [fix_presorts] records whether the source still does).
+   After match_ref the sample row and its reference row travel together as a pair; the code
+   keeps two tables aligned by position, which is the same thing once the sample is sorted and
+   its sort keys are distinct.
 
    No proofs here (Proofs/Fix*.v). *)
-From CNV Require Import Base.Prelude Base.Str Base.QNum Model.Chromsort Gen.Params Gen.FixDefaults.
+From CNV Require Import Base.Prelude Base.Str Base.QNum Model.Chromsort Model.Smoothing Model.Descriptives
+  Gen.Params Gen.FixDefaults Gen.DescDefaults.
 From Coq Require Import Qround Qabs.
 Local Open Scope Q_scope.
 
@@ -183,16 +190,10 @@ Definition edge_bias (l : list brow) : list Q :=
 
 (* ---- rolling median, center_by_window -------------------------------------------------------- *)
 
-(* smoothing.rolling_median with the half-window [wing] from _width2wing *)
-Definition pad_mirror (wing : nat) (x : list Q) : list Q :=
-  rev (firstn wing x) ++ x ++ firstn wing (rev x).
-
-Definition rolling_median (wing : nat) (x : list Q) : list Q :=
-  match x with
-  | [] | [_] => x
-  | _ => let p := pad_mirror wing x in
-         map (fun j => median (firstn (2 * wing + 1) (skipn j p))) (seq 0 (length x))
-  end.
+(* smoothing.rolling_median with the half-window [wing] from _width2wing: a signal shorter than
+   ROLLING_MIN_LEN comes back unchanged *)
+Definition rolling (wing : nat) (x : list Q) : list Q :=
+  if (Z.of_nat (length x) <? ROLLING_MIN_LEN)%Z then x else rolling_median_wing x wing.
 
 Definition pick {A} (l : list A) (perm : list nat) : list A :=
   flat_map (fun i => match nth_error l i with Some x => [x] | None => [] end) perm.
@@ -204,7 +205,7 @@ Definition sort_brows (l : list brow) : list brow := sort_regions_fast bkey l.
 Definition center_by_window (perm : list nat) (wing : nat) (keys : list Q) (l : list brow) : list brow :=
   let shuffled := pick (combine keys l) perm in
   let sorted := map snd (stable_sort key_leb shuffled) in
-  let biases := rolling_median wing (map blog2 sorted) in
+  let biases := rolling wing (map blog2 sorted) in
   let fixed := map (fun p => bset_log2 (Qred (blog2 (fst p) - snd p)) (fst p)) (combine sorted biases) in
   sort_brows fixed.
 
@@ -314,9 +315,51 @@ Definition fix_post (c : cfg) (sqrtZ : Z -> Q) (var_t var_a : Q) (l : list brow)
   apply_weights sqrtZ var_t var_a (center_all c true l).
 
 (* [bmv2 l] = descriptives.biweight_midvariance(l) ** 2 *)
-Definition do_fix (c : cfg) (o : oracles) (sqrtZ : Z -> Q) (bmv2 : list Q -> Q)
+Definition do_fix_gen (bmv2 : list Q -> Q) (c : cfg) (o : oracles) (sqrtZ : Z -> Q)
   (target anti : list srow) (ref : list rrow) : fix_error + list (brow * Q) :=
   match fix_pre c o target anti ref with
   | inl e => inl e
   | inr l => inr (fix_post c sqrtZ (bmv2 (class_residuals c false l)) (bmv2 (class_residuals c true l)) l)
+  end.
+
+(* descriptives.biweight_midvariance(a) ** 2 on a NaN-free array of at least two values: a copy of
+   Model/Descriptives.bivar_sq_core with the guard as it is in /repo since 2c65616 (fall back on the
+   MAD only when no kept deviation is non-zero). *)
+Definition fix_bivar_sq (a : list Q) : Q :=
+  let initial := biweight_location_core a None in
+  let d := sub_all initial a in
+  let mad := median (abs_all d) in
+  let scale := qmax2 (qmul BIVAR_C mad) BIVAR_EPS in
+  let dw := filter (fun p => qlt_b (qabs (snd p)) BIVAR_MASK_BOUND)
+                   (combine d (map (fun di => qdiv di scale) d)) in
+  if forallb (fun p => qeq_b (snd p) 0) dw then qsq (qmul mad BIVAR_MAD_SCALE)
+  else
+    let n := qofnat (length dw) in
+    let num := qmul n (qsum (map (fun p => qmul (qsq (fst p))
+                                              (qpow (qsub 1 (qsq (snd p))) (Z.to_nat BIVAR_NUM_POW))) dw)) in
+    let den := qsum (map (fun p => qmul (qsub 1 (qsq (snd p)))
+                                        (qsub 1 (qmul BIVAR_DEN_COEF (qsq (snd p))))) dw) in
+    qdiv num (qsq den).
+
+(* the on_array(0) decorator: one value gives the default; the empty array gives NaN in the code
+   (every weight of that class is then NaN -- known finding 'c04-weight-nan-no-usable-target');
+   0 here, the theorems about weights assume a usable bin in each class *)
+Definition var_of (a : list Q) : Q :=
+  match a with
+  | [] => 0
+  | [_] => qsq BIVAR_DEFAULT
+  | _ => fix_bivar_sq a
+  end.
+
+Definition do_fix := do_fix_gen var_of.
+
+(* number of rows center_by_window sees for one sample table (what the permutation and the
+   wing are drawn for); None when match_ref raises *)
+Definition masked_len (c : cfg) (ref : list rrow) (samp : list srow) : option nat :=
+  match samp with
+  | [] => Some O
+  | _ => match match_ref ref (presort samp) with
+         | inl _ => None
+         | inr m => Some (length (mask_bad c m))
+         end
   end.
